@@ -10,6 +10,8 @@ real code for a singular left block (known finding F11, `gaussian_reconstruct_co
 -/
 import OFV.Model.C11
 import OFV.Proofs.C11
+import OFV.Proofs.C11Num
+import OFV.Proofs.C11Layers
 
 namespace OFV.C11
 open OFV OFV.Model.C11
@@ -198,5 +200,123 @@ theorem gauss_row_done_before_pht (n k i j : Nat) (h : (i, j) ∈ gaussLayer n k
   rw [mem_gaussLayer] at h; omega
 
 example : gaussLayer 4 3 = [(3, 0), (2, 2)] := by decide
+
+/-! ## What the numeric Model emits (the functions the driver runs against the real code) -/
+
+/-- `givens_decomposition_square` (Model), any input, any tolerance, `always_insert` or not: whenever it
+returns, there are at most `2(n-1)-1` layers, none empty; every rotation acts on adjacent in-range
+indices `(j-1, j)`; the rotations of a layer are ordered with gaps ≥ 2, i.e. act on disjoint pairs. -/
+theorem square_emitted_structure (tol : Rat) (Q : Mat) (ai : Bool) (ls : List (List Rot)) (d : List GQ)
+    (h : decompSquare tol Q ai = .ok (ls, d)) :
+    ls.length ≤ squareDepth Q.length ∧
+    ∀ l ∈ ls, l ≠ [] ∧ (∀ r ∈ l, r.i + 1 = r.j ∧ r.j < Q.length) ∧ l.Pairwise (fun r r' => r.j + 2 ≤ r'.j) := by
+  unfold decompSquare at h
+  cases hS : colSweep tol (squareLayer Q.length) ai (List.range (squareDepth Q.length)) Q with
+  | error e => simp [hS, bind, Except.bind] at h
+  | ok t =>
+    obtain ⟨ls', M⟩ := t
+    simp only [hS, bind, Except.bind] at h
+    injection h with h; injection h with h1 h2; subst h1
+    obtain ⟨hlen, hall⟩ := colSweep_layers tol _ ai _ _ _ _ hS
+    refine ⟨by simpa using hlen, ?_⟩
+    intro l hl
+    obtain ⟨hne, k, _, hs⟩ := hall l hl
+    obtain ⟨hmem, hpw⟩ := sublayer_structure (squareLayer_pairwise _ k) hs
+    refine ⟨hne, ?_, hpw⟩
+    intro r hr
+    obtain ⟨⟨i, j⟩, hp, h1, h2⟩ := hmem r hr
+    rw [mem_squareLayer] at hp
+    simp only at h1 h2
+    omega
+
+/-- the same for `givens_decomposition` (Model) on an `m × n` input with `m < n`: at most `n - 1` layers -/
+theorem givens_emitted_structure (tol : Rat) (Q : Mat) (n : Nat) (ai : Bool) (out : GivensOut)
+    (hm : Q.length < n) (h : decompGivens tol Q n ai = .ok out) :
+    out.layers.length ≤ givensDepth n ∧
+    ∀ l ∈ out.layers, l ≠ [] ∧ (∀ r ∈ l, r.i + 1 = r.j ∧ r.j < n) ∧ l.Pairwise (fun r r' => r.j + 2 ≤ r'.j) := by
+  unfold decompGivens at h
+  simp only at h
+  rw [if_neg (by omega)] at h
+  cases hL : leftStage tol (givensLeft Q.length n) Q (Mat.identity Q.length) with
+  | error e => simp [hL, bind, Except.bind] at h
+  | ok t =>
+    obtain ⟨M, V⟩ := t
+    simp only [hL, bind, Except.bind] at h
+    rw [if_neg (by omega)] at h
+    cases hS : colSweep tol (givensLayer Q.length n) ai (List.range (givensDepth n)) M with
+    | error e => simp [hS] at h
+    | ok t2 =>
+      obtain ⟨ls', M'⟩ := t2
+      simp only [hS] at h
+      injection h with h; subst h
+      obtain ⟨hlen, hall⟩ := colSweep_layers tol _ ai _ _ _ _ hS
+      refine ⟨by simpa using hlen, ?_⟩
+      intro l hl
+      obtain ⟨hne, k, hk, hs⟩ := hall l hl
+      obtain ⟨hmem, hpw⟩ := sublayer_structure (givensLayer_pairwise _ _ k) hs
+      refine ⟨hne, ?_, hpw⟩
+      intro r hr
+      obtain ⟨⟨i, j⟩, hp, h1, h2⟩ := hmem r hr
+      rw [mem_givensLayer _ _ _ _ _ hm (by simpa [givensDepth] using List.mem_range.mp hk)] at hp
+      simp only at h1 h2
+      omega
+
+-- non-vacuity: the Model returns on a 3-4-5 rotation (one layer, one rotation) and on a 2 × 3 isometry
+example : (decompSquare (1/100000000) [[⟨3/5, 0⟩, ⟨4/5, 0⟩], [⟨-4/5, 0⟩, ⟨3/5, 0⟩]] false).toOption.map
+    (fun r => r.1.map (·.map Rot.idx)) = some [[(0, 1)]] := by decide +kernel
+example : (decompGivens (1/100000000) [[0, ⟨3/5, 0⟩, ⟨0, 4/5⟩], [1, 0, 0]] 3 false).toOption.map
+    (fun o => o.layers.map (·.map Rot.idx)) = some [[(1, 2)]] := by decide +kernel
+
+/-! ## `givens_matrix_elements` -/
+
+/-- For every pair `(a, b)` in the exact regime (an entry below the tolerance is exactly zero, an imaginary
+part below the tolerance is exactly zero) on which the Model is defined, in all three branches and all four
+matrix forms: `G` is unitary, `G (a, b)ᵀ` has the promised zero, and the rotation
+`[[cos θ, -e^{iφ} sin θ], [sin θ, e^{iφ} cos θ]]` rebuilt from the returned parameters
+`θ = arcsin(Re G₁₀)`, `φ = angle(G₁₁)` is `G` itself (for `sine = 0` in the complex `which='right'`
+form this rests on `angle(-0.0) = π`, which the Model records in `negZero11`). -/
+theorem givens_matrix_elements_sound (tol : Rat) (htol : 0 < tol) (a b : GQ) (right : Bool) (G : G2)
+    (hexa : small tol a = true → a = 0) (hexb : small tol b = true → b = 0)
+    (hreal : realish tol a b = true → a.im = 0 ∧ b.im = 0)
+    (h : givensElems tol a b right = .ok G) :
+    G.Unitary ∧ G.Zeroes right a b ∧
+    ∀ s c e, params G = .ok (s, c, e) → (rotationOf s c e).SameEntries G := by
+  unfold givensElems at h
+  cases hC : cosSinPhase tol a b with
+  | error e => simp [hC, bind, Except.bind] at h
+  | ok t =>
+    obtain ⟨c, s, ph⟩ := t
+    simp only [hC, bind, Except.bind] at h
+    injection h with h; subst h
+    have hcsp := cosSinPhase_spec htol hexa hexb hC
+    exact ⟨assemble_unitary hcsp right _ hreal, assemble_zeroes hcsp right _ hreal,
+           fun s' c' e hp => params_assemble hcsp right _ hreal hp⟩
+
+-- non-vacuity (generic branch, complex form): a = 3/5, b = 4i/5, which = 'right'
+example : (givensElems (1/100000000) ⟨3/5, 0⟩ ⟨0, 4/5⟩ true).toOption.map
+    (fun G => (G.g00, G.g01, G.g10, G.g11)) = some (⟨3/5, 0⟩, ⟨0, -4/5⟩, ⟨4/5, 0⟩, ⟨0, 3/5⟩) := by decide +kernel
+example : small (1/100000000) ⟨3/5, 0⟩ = false ∧ small (1/100000000) ⟨0, 4/5⟩ = false ∧
+    realish (1/100000000) ⟨3/5, 0⟩ ⟨0, 4/5⟩ = false := by decide +kernel
+-- non-vacuity (a = 0, complex b, 'right': the signed-zero case)
+example : (givensElems (1/100000000) 0 ⟨0, 1⟩ true).toOption.map (fun G => (G.g11, G.negZero11)) =
+    some (0, true) := by decide +kernel
+
+/-- signed zero matters: with `a = 0`, complex `b` and `which='right'` the Model yields `G₁₁ = -0.0` and
+`e^{iφ} = -1`; with `+0.0` (`e^{iφ} = 1`) the rebuilt rotation would differ from `G` in entry `[0,1]` -/
+theorem test_signed_zero_needed :
+    (rotationOf 1 0 (-1)).g01 = (1 : GQ) ∧ (rotationOf 1 0 1).g01 = (-1 : GQ) := by
+  constructor <;> (refine GQ.ext ?_ ?_ <;> simp [rotationOf, GQ.ofRat])
+
+/-! ## Known finding F11 -/
+
+/-- The full statement `gaussian_reconstruct` ("for every admissible `N × 2N` matrix the returned diagonal
+has unit modulus and `V W U† = (0 | D)`") is FALSE for the code as it is: on the admissible
+`W = [[0,0,0,1],[0,0,1,0]]` (`b₀ = a₁`, `b₁ = a₀`; left block singular) the Model — which the
+correspondence run shows to agree with the implementation on this input — returns the diagonal `[0, 0]`
+and no operation at all. -/
+theorem gaussian_reconstruct_counterexample :
+    gaussAdmissible (1/100000000) [[0, 0, 0, 1], [0, 0, 1, 0]] 2 = true ∧
+    (decompGauss (1/100000000) [[0, 0, 0, 1], [0, 0, 1, 0]] 4).toOption.map
+      (fun o => (o.layers.length, o.diag)) = some (0, [0, 0]) := by decide +kernel
 
 end OFV.C11
